@@ -180,4 +180,14 @@ example : Inv (runOps sR opsR) :=
   (C19.restarted_chain_stays_backed cfg0_ok s2_reachable 1 0 sR_is_restart
     (sR2_reachableFrom opsR sR ReachableFrom.init (by decide))).1
 
+/-- … and the same history as a `ReachableR` chain: `s2`, a restart, the context started again, a block, and a second
+    restart — which succeeds, as `C19.chain_with_restarts_keeps_invariants` says it must -/
+theorem reachableR_of_reachable {s : State} (h : Reachable cfg0 p0 1 0 s) : ReachableR cfg0 p0 1 0 s := by
+  induction h with
+  | init => exact ReachableR.init
+  | step op _ hw ih => exact ReachableR.step op ih hw
+theorem sR_reachableR : ReachableR cfg0 p0 1 0 sR :=
+  ReachableR.restart 1 0 (reachableR_of_reachable s2_reachable) sR_is_restart
+example : (restart (runOps sR opsR) 7 0).isSome = true := by decide
+
 end SM.NonVacuity
